@@ -486,6 +486,10 @@ def probes(ctx, count):
                                      "Full: a cos(2 pi f t + phi) anywhere), numpy rfft of one period for out-of-band power, shared-time equality, basis copy"}
 
 
+PINS = [("pyrex/signals.py", "FFTThermalNoise.__init__"), ("pyrex/signals.py", "FullThermalNoise.__init__"),
+        ("pyrex/antenna.py", "Antenna.make_noise"), ("pyrex/signals.py", "FunctionSignal.with_times"), ("pyrex/signals.py", "FunctionSignal.values")]
+
+
 def run(ctx):
     ctx.rule = ("corr: grids (N 2..512, dt 1e-10..1 decimal/dyadic, offsets), bands {inside, touching 0, below 0, above Nyquist, ending exactly at "
                 "the Nyquist bin, empty above Nyquist, empty between bins, single bin, reversed}, uniqueness_factor {0, 0.5, 1..5, 2.7, 10}, amplitude "
@@ -507,9 +511,11 @@ def run(ctx):
     ok = ctx.coq_build("C17")
     exe = dft_extract.build(ctx, "c17", EXTRACT_REQ, EXTRACT_CMD, "noise", "c17_driver.ml")
     before = len(ctx.failures)
+    # a hand-modelled function was edited since the model was written: re-validate harder
+    repin = bool(dft_extract.pins_changed(ctx, "C17", PINS))
     if exe:
-        correspondence(ctx, exe, ctx.n(100, 3000))
-    failed = (not ok) or exe is None or len(ctx.failures) > before or bool(ctx.broken)
+        correspondence(ctx, exe, ctx.n(300 if repin else 100, 3000))
+    failed = (not ok) or exe is None or len(ctx.failures) > before or bool(ctx.broken) or repin
     probes(ctx, ctx.n(60, 1500) if not failed else ctx.n(400, 1500))
 
 
